@@ -354,7 +354,7 @@ func affineD(v ssa.Value, d int) (Affine, bool) {
 	case *ssa.BinOp:
 		if ph, ok := x.X.(*ssa.Phi); ok && x.Op == token.ADD && ph.Comment == "rangeindex" && isInduction(ph) {
 			if c, ok := constInt(x.Y); ok && c == 1 {
-				return affSym("#i"), true
+				return affSym(inductionName(ph.Block())), true
 			}
 		}
 		a, ok1 := affineD(x.X, d+1)
@@ -417,7 +417,7 @@ func affineD(v ssa.Value, d int) (Affine, bool) {
 			return affineD(e, d+1)
 		}
 		if isInduction(x) {
-			return affSym("#i"), true
+			return affSym(inductionName(x.Block())), true
 		}
 	case *ssa.Extract, *ssa.Lookup, *ssa.Index:
 		return affSym(desc(v)), true
